@@ -367,7 +367,9 @@ theorem C08_cli_list_outputs_eq_generated (env : Environ) (argvGen argvList : Li
 transcribes — `_list_outputs_only`: types then support, both dry, both with `--omit-serialization-support`;
 `_list_inputs_only`: type templates, support templates, the sources, then the definitions below the lookup directories; `_generate`: support then types with the same four
 keyword values; the guards are `_should_generate_support()` for the support generator and `generate_support != "only"` for
-the type generator, in all three. -/
+the type generator, in all three; the lookup directories are `--lookup-dir` plus the entries of `DSDL_INCLUDE_PATH` — one list
+(`self._extra_includes`, shape checked by the translator) for the DSDL front end and for `_lookup_dsdl_files`, which is what
+`Args.lookupFiles` stands for (`CliParse.extraIncludes`). -/
 theorem C08_runner_calls_as_modelled :
     calls.map (fun c => (c.method, c.target, c.fn, c.guards)) =
       [("_list_outputs_only", "_generator", "generate_all", [.notOnly]),
@@ -385,7 +387,8 @@ theorem C08_runner_calls_as_modelled :
     (∀ c ∈ calls, c.method = "_generate" → c.kwargs.lookup "is_dryrun" = some (.arg "dry_run") ∧
       c.kwargs.lookup "omit_serialization_support" = some (.arg "omit_serialization_support")) ∧
     runChain = [("list_outputs", "_list_outputs_only"), ("list_inputs", "_list_inputs_only"),
-      ("list_configuration", "_list_configuration_only")] ∧ runElse = "_generate" := by
+      ("list_configuration", "_list_configuration_only")] ∧ runElse = "_generate" ∧
+    envIncludeVars = ["DSDL_INCLUDE_PATH"] := by
   decide
 
 /-! Non-vacuity of the command-line theorems (kernel-evaluated on the generated table). -/
